@@ -108,11 +108,16 @@ impl<'de, R: ReadSlice<'de>> Deserializer<'de> for DatumDeserializer<'_, '_, R> 
 	{
 		// Allow deserializing discriminants without making the string lookup for enums
 		match *self.schema_node {
-			SchemaNode::Enum(_) => {
+			SchemaNode::Enum(ref enum_) => {
 				let discriminant: i64 = self.state.read_varint()?;
-				visitor.visit_u64(discriminant.try_into().map_err(|e| {
+				let discriminant: u64 = discriminant.try_into().map_err(|e| {
 					DeError::custom(format_args!("Got negative enum discriminant: {e}"))
-				})?)
+				})?;
+				if discriminant < enum_.symbols.len() as u64 {
+					visitor.visit_u64(discriminant)
+				} else {
+					Err(DeError::new("Could not find enum discriminant in schema"))
+				}
 			}
 			SchemaNode::Decimal(ref decimal) => read_decimal(
 				self.state,
